@@ -178,19 +178,19 @@ theorem reach_trans {P : Prog} {c0 c c' : Cfg} (h : Reach P c0 c) (t : Trans P c
 /-- induction principle: an invariant of the shape view that holds initially and is preserved by
 every abstract transition holds in every reachable configuration -/
 theorem reach_sv_induction {P : Prog} {c0 c : Cfg} (I : SV → Prop) (h0 : I c0.sv)
-    (hs : ∀ v v', I v → SStep P v v' → I v') (h : Reach P c0 c) : I c.sv := by
+    (hs : ∀ v evs v', I v → SStepE P v evs v' → I v') (h : Reach P c0 c) : I c.sv := by
   induction h with
   | init => exact h0
-  | step _ hst ih => exact hs _ _ ih (trans_sstep (.step hst)).1
-  | deliver _ hd ih => exact hs _ _ ih (trans_sstep (.deliver hd)).1
-  | halt _ hst ih => exact hs _ _ ih (trans_sstep (.halt hst)).1
+  | step _ hst ih => obtain ⟨evs, h1, _⟩ := trans_sstep (.step hst); exact hs _ _ _ ih h1
+  | deliver _ hd ih => obtain ⟨evs, h1, _⟩ := trans_sstep (P := P) (.deliver hd); exact hs _ _ _ ih h1
+  | halt _ hst ih => obtain ⟨evs, h1, _⟩ := trans_sstep (.halt hst); exact hs _ _ _ ih h1
 
 theorem reach_grow {P : Prog} {c0 c : Cfg} (h : Reach P c0 c) : Grow c0 c := by
   induction h with
   | init => exact Grow.refl _
-  | step _ hst ih => exact ih.trans (trans_sstep (.step hst)).2
-  | deliver _ hd ih => exact ih.trans (trans_sstep (P := P) (.deliver hd)).2
-  | halt _ hst ih => exact ih.trans (trans_sstep (.halt hst)).2
+  | step _ hst ih => obtain ⟨_, _, _, h2⟩ := trans_sstep (.step hst); exact ih.trans h2
+  | deliver _ hd ih => obtain ⟨_, _, _, h2⟩ := trans_sstep (P := P) (.deliver hd); exact ih.trans h2
+  | halt _ hst ih => obtain ⟨_, _, _, h2⟩ := trans_sstep (.halt hst); exact ih.trans h2
 
 /-! ### `Chained` is an invariant -/
 
@@ -249,7 +249,8 @@ theorem chained_unwindTo (k : Kind) {l : List Instr} (h : Chained l) : Chained (
         | exact h.2
         | exact (h.2.dropWhile _).drop 1
 
-theorem sstep_chained {P : Prog} {v v' : SV} (hc : Chained v.code) (hs : SStep P v v') : Chained v'.code := by
+theorem sstep_chained {P : Prog} {v v' : SV} {evs : List Tr} (hc : Chained v.code) (hs : SStepE P v evs v') :
+    Chained v'.code := by
   cases hs with
   | stutter => exact hc
   | batch hcode hb =>
@@ -304,7 +305,7 @@ theorem chained_init (init : List Act) : Chained (init.map .act ++ [.apprun]) :=
 theorem reach_chained {P : Prog} {c0 c : Cfg} (h0 : Started c0) (h : Reach P c0 c) : Chained c.code := by
   obtain ⟨init, handlers, quitCb, stdin, rfl⟩ := h0
   exact reach_sv_induction (fun v => Chained v.code)
-    (show Chained (initCfg init handlers quitCb stdin).sv.code from chained_init init) (fun _ _ => sstep_chained) h
+    (show Chained (initCfg init handlers quitCb stdin).sv.code from chained_init init) (fun _ _ _ => sstep_chained) h
 
 end Shape
 
